@@ -21,6 +21,7 @@ func All() map[string]orch.Property {
 		&C03{},
 		&C07{},
 		&C08{},
+		&C09{},
 		&C10{},
 		&C11{},
 		&C12{},
@@ -177,3 +178,5 @@ var sevEntryName = map[int]string{
 
 // std log/slog level values for Entry.Log
 var stdLevelOf = map[int]int{model.Debug: -4, model.Info: 0, model.Warn: 4, model.Error: 8, model.Trace: -8, model.Fatal: 16, model.Panic: 17}
+
+func jsonMarshal(v any) ([]byte, error) { return json.Marshal(v) }
